@@ -202,3 +202,117 @@ def patch(data, offset, fmt, value):
     b = bytearray(data)
     b[offset:offset + struct.calcsize(fmt)] = struct.pack(fmt, value)
     return bytes(b)
+
+
+class _DelayThread:
+    """delay-bounded schedule: the named thread runs first whenever it can, for k of its steps; from then on it is held back for as
+    long as anything else can run, and continues only when it is the only one left"""
+    wants_timers = True
+
+    def __init__(self, name, k):
+        self.name, self.k, self.n = name, k, 0
+        self.names = []
+
+    def __call__(self, names, sched):
+        timers = getattr(sched, "timer_names", set())
+        if self.name in names and self.name not in timers and self.n < self.k:
+            self.n += 1
+            pick = self.name
+        else:
+            rest = [n for n in names if n != self.name]
+            plain = [n for n in rest if n not in sched.soft and n not in timers]
+            pick = (plain or [n for n in rest if n not in timers] or rest or names)[0]
+        self.names.append(pick)
+        return pick
+
+
+def handover_traces(ctx, kmax=400, hostile=False):
+    """thread-pool server, one connection ends and the next one arrives at once: the worker that served the first is held back after
+    each of its steps in turn (every line of the worker's and the pool's own code is a step) while the rest - the client, the
+    accept loop - runs as far as it can.  A further client comes and goes afterwards.  Returns traces in the vocabulary of
+    Trace_Daemon.tla: every connection must have been served (witness_ok), cleaned up once (Hook, Snap) and every worker slot
+    must be free again (End).  hostile: the first connection sends garbage instead of a connect message and is dropped by the
+    daemon."""
+    import os
+    from . import sched as S
+    memnet.install()
+    from Pyro5 import svr_threads
+    tfile = os.path.abspath(svr_threads.__file__)
+
+    def tfilter(code):
+        return os.path.abspath(code.co_filename) == tfile and code.co_name in ("run", "notify_done", "process", "__call__")
+
+    def once(chooser):
+        out = {}
+
+        def main():
+            sc = S.CUR
+            lab = Lab(servertype="thread", poolsize=2)
+            P = lab.P
+
+            class T(object):
+                def echo(self, x):
+                    return x
+            lab.daemon.register(P.expose(T)(), "target")
+            uri = lab.daemon.uriFor("target")
+            okc = {}
+            hang = False
+            fresh_ok = True
+            try:
+                for i in (1, 2):
+                    okc[i] = False
+                    if hostile and i == 1:
+                        rc = lab.raw()
+                        rc.send(b"GET / HTTP/1.0\r\n\r\n" + b"\x00" * 40)
+                        lab.log.append({"e": "Ended", "c": rc.cid})
+                        okc[i] = True
+                        continue              # ... and the next client is there at once (the garbage is still being dealt with)
+                    p = P.Proxy(uri)
+                    p._pyroBind()
+                    okc[i] = p.echo(i) == i
+                    lab.log.append({"e": "Ended", "c": lab.conn_of_sock(p._pyroConnection.sock)})
+                    p._pyroRelease()          # ... and the next client is there at once
+                sc.quiesce()
+                # a further client, alone: a slot that was lost shows as a refusal or as silence
+                try:
+                    with P.Proxy(uri) as q:
+                        fresh_ok = q.echo("fresh") == "fresh"
+                        lab.log.append({"e": "Ended", "c": lab.conn_of_sock(q._pyroConnection.sock)})
+                except (S.Hang, S.SchedAbort):
+                    raise
+                except Exception:
+                    fresh_ok = False
+                sc.quiesce()
+            except S.Hang:
+                hang = True
+            except Exception:
+                pass
+            n = len(lab.net.socks) - lab.base
+            tr = [{"e": "First", "c": c, "accept": not (hostile and c == 1), "mustreason": False} for c in range(1, n + 1)]
+            tr += [e for e in lab.log if e["e"] in ("Hook", "Ended")]
+            if not hang:
+                for c in range(1, n + 1):
+                    srv = lab.net.socks[lab.base + c - 1][1]
+                    tr.append({"e": "Snap", "c": c, "srvclosed": bool(srv.closed), "first": "ok", "reason": False, "mustreason": False,
+                               "checkfirst": False, "alive_sessions": 0})
+            tr.append({"e": "End", "slots": lab.server_connections() if not hang else 0, "open": 0, "loop_alive": lab.driver.crashed is None,
+                       "witness_ok": bool(okc.get(1)) and bool(okc.get(2)), "fresh_ok": bool(fresh_ok), "hang": hang})
+            out["tr"] = tr
+            if not hang:
+                lab.close()
+        res, sc = memnet.run(main, chooser=chooser, trace_filter=tfilter, max_steps=60000)
+        if "tr" not in out:
+            out["tr"] = [{"e": "End", "slots": 0, "open": 0, "loop_alive": True, "witness_ok": False, "fresh_ok": False, "hang": True}]
+        elif res.get("hang"):
+            out["tr"][-1]["hang"] = True
+        return out["tr"]
+    traces = []
+    for w in ("w1", "w2"):
+        for k in range(1, kmax):
+            ch = _DelayThread(w, k)
+            tr = once(ch)
+            ctx.evaluations += 1
+            traces.append((tr, {"delayed": [w, k], "hostile": hostile}))
+            if ch.n < k:
+                break         # the thread never takes that many steps
+    return traces
